@@ -12,7 +12,7 @@ LEVEL = "exploration"
 DESIGN_REF = "DESIGN.md section 4 / C02"
 CHUNK = 16
 RULE = ("(a) the complete C01 letter space for n<=2 (exact gradient), the n=2 letter space "
-        "under each finite-difference mode, and 12 non-convex objectives x box {box, mixed} "
+        "under each finite-difference mode and translated so that a bound is exactly 0.0, and 12 non-convex objectives x box {box, mixed} "
         "x start {face, vertex} x jac {callable,None,2-point,3-point,cs} x maxls {1,3,20} x "
         "maxfun {5,50,3000} x user letter {pure, scribble, samebuf}; (b) all environment "
         "runs with <= D deviations among the first K distinct points; (c) a linear objective "
@@ -38,6 +38,10 @@ def cases(tier, variants):
     for jac in JACS[1:]:
         yield from F.convex_cases(2, variants, (3,), fams=fd_f, hesses=fd_h,
                                   extra=dict(part="e1", jac=jac))
+    for z in ("lo", "up", "deg"):
+        for jac in ("callable", "2-point"):
+            yield from F.convex_cases(2, variants, (3,), fams=("qp",), hesses=("rot2",),
+                                      extra=dict(part="e1", jac=jac, zero=z))
     if tier == "thorough":
         yield from F.convex_cases(3, variants[:1], (2,), hesses=("rot2",),
                                   extra=dict(part="e1", jac="callable"))
@@ -89,7 +93,14 @@ def run(case):
     from lbfgsb import minimize_lbfgsb
     part = case["part"]
     if part == "env":
-        res, its, env, kw = E.env_run(case)
+        try:
+            res, its, env, kw = E.env_run(case)
+        except np.linalg.LinAlgError:
+            # a lying environment can hand over pairs whose middle matrix is numerically
+            # indefinite: the factorisation fails.  Not this property's business (DESIGN.md
+            # section 1, Exceptions): counted in the evidence, not judged.
+            return dict(viol=[], outcome="LinAlgError_in_lying_environment",
+                        stats={"env_linalg_error": 1})
         viol = []
         if env.outside:
             viol.append(V("evaluated_outside_box", n_outside=env.outside))
